@@ -348,6 +348,20 @@ def gen_flags():
         ex = "true"
     else:
         raise Unsupported("statements after the unwinding loop of nogood_internal: %r" % " ".join(after))
+    # generate_var_dependencies (the first half of fix_import): does it start from an empty table?
+    gv = fn_text(obdd, "generate_var_dependencies")
+    body_gv = gv[: gv.index("self.nodes.iter()")] if "self.nodes.iter()" in gv else None
+    if body_gv is None:
+        raise Unsupported("generate_var_dependencies")
+    pre = [l.strip() for l in re.sub(r"//[^\n]*", "", body_gv).splitlines()[1:] if l.strip() and not l.strip().startswith("#[cfg")]
+    if pre == []:
+        clears = "false"
+    elif pre in (["self.var_deps.clear();"], ["self.var_deps = Vec::new();"], ["{", "self.var_deps.clear();"]):
+        clears = "true"
+    else:
+        raise Unsupported("statements before the loop of generate_var_dependencies: %r" % pre)
+    out.append("(* generate_var_dependencies rebuilds the variable sets from an empty table *)")
+    out.append("Definition g_fix_import_clears : bool := %s." % clears)
     out.append("(* nogood_internal: the loop ends when a backtrack finds no choice entry *)")
     out.append("Definition g_ng_stop_exhausted : bool := %s." % ex)
     return "\n".join(out) + "\n"
